@@ -325,3 +325,14 @@ package labelmap
 //@   prop C20
 //@   modifies *
 //@   assert at "scale = uint8(scaleInt)": 0 <= scaleInt && scaleInt <= 255
+
+// sendBlocksVolume (C20): the number of blocks requested is under the client's control - the stream is
+// set up only for a subvolume of at least one block in every dimension, and the buffer of blocks waiting
+// to be sent is bounded whatever the request asks for (no make(chan) with a negative or huge capacity).
+//@ func Data.sendBlocksVolume
+//@   prop C20
+//@   requires d != nil
+//@   safety_off
+//@   requires_off
+//@   modifies *
+//@   assert at "ch := make(chan blockSend, chanSize)": blocksdims.Value(0) >= 1 && blocksdims.Value(1) >= 1 && blocksdims.Value(2) >= 1 && chanSize >= 1 && chanSize <= 10000
